@@ -16,13 +16,6 @@ import (
 	"github.com/onflow/crypto"
 )
 
-type c10Call struct {
-	Op   string `json:"op"` // start | timeout | end | running | bcast | priv | force
-	Seed string `json:"seed,omitempty"`
-	Orig int    `json:"orig,omitempty"`
-	Msg  string `json:"msg,omitempty"`
-}
-
 type c10In struct {
 	Proto  string     `json:"proto"` // vss | qual | joint
 	N      int        `json:"n"`
@@ -30,7 +23,7 @@ type c10In struct {
 	My     int        `json:"my"`
 	Dealer int        `json:"dealer"`
 	Polys  [][]string `json:"polys"` // scripted polynomials (decimal coefficients), two per origin
-	Calls  []c10Call  `json:"calls"`
+	Calls  []dkgCall  `json:"calls"`
 }
 
 func init() {
@@ -56,82 +49,6 @@ func c10NewInstance(in *c10In, p *dkgProc) (crypto.DKGState, error) {
 		return crypto.NewJointFeldman(in.N, in.T, in.My, p)
 	}
 	return nil, fmt.Errorf("unknown protocol %q", in.Proto)
-}
-
-type c10Obs struct {
-	Class   string         `json:"class"` // ok | invalid-input | state | failure | keys | panic | true | false
-	Running bool           `json:"running"`
-	Events  []dkgEvent     `json:"events,omitempty"`
-	Keys    map[string]any `json:"keys,omitempty"`
-	keys    [3]any
-}
-
-func c10Exec(d crypto.DKGState, p *dkgProc, c c10Call) (o c10Obs) {
-	var err error
-	var x crypto.PrivateKey
-	var Y crypto.PublicKey
-	var ys []crypto.PublicKey
-	isEnd := false
-	panicked, _ := catch(func() {
-		switch c.Op {
-		case "start":
-			err = d.Start(unhx(c.Seed))
-		case "timeout":
-			err = d.NextTimeout()
-		case "end":
-			isEnd = true
-			x, Y, ys, err = d.End()
-		case "running":
-			o.Class = fmt.Sprint(d.Running())
-		case "bcast":
-			err = d.HandleBroadcastMsg(c.Orig, unhx(c.Msg))
-		case "priv":
-			err = d.HandlePrivateMsg(c.Orig, unhx(c.Msg))
-		case "force":
-			err = d.ForceDisqualify(c.Orig)
-		}
-	})
-	o.Events = p.take()
-	if panicked {
-		o.Class = "panic"
-		return
-	}
-	if o.Class == "" {
-		o.Class = dkgErrClass(err)
-		if isEnd && err == nil {
-			o.Class = "keys"
-			o.keys = [3]any{x, Y, ys}
-		}
-	}
-	o.Running = d.Running()
-	return
-}
-
-func c10Refused(o c10Obs) bool { return o.Class == "state" || o.Class == "invalid-input" }
-
-func c10SameObs(a, b c10Obs) bool {
-	if a.Class != b.Class || a.Running != b.Running || len(a.Events) != len(b.Events) {
-		return false
-	}
-	for i := range a.Events {
-		if a.Events[i] != b.Events[i] {
-			return false
-		}
-	}
-	if a.Class == "keys" {
-		ax, bx := a.keys[0].(crypto.PrivateKey), b.keys[0].(crypto.PrivateKey)
-		aY, bY := a.keys[1].(crypto.PublicKey), b.keys[1].(crypto.PublicKey)
-		ay, by := a.keys[2].([]crypto.PublicKey), b.keys[2].([]crypto.PublicKey)
-		if !ax.Equals(bx) || !aY.Equals(bY) || len(ay) != len(by) {
-			return false
-		}
-		for i := range ay {
-			if !ay[i].Equals(by[i]) {
-				return false
-			}
-		}
-	}
-	return true
 }
 
 func c10ParsePolys(in *c10In) [][]*big.Int {
@@ -172,81 +89,27 @@ func c10Run(c Case) (Result, error) {
 	if in.Proto == "joint" {
 		ownIdx = in.My
 	}
-	var obs []c10Obs
+	var obs []dkgObs
 	var terms []string
 	accepted, refused := 0, 0
 	for _, call := range in.Calls {
-		var ct string
-		switch call.Op {
-		case "start":
-			seed := unhx(call.Seed)
-			if len(seed) < crypto.KeyGenSeedMinLen {
-				ct = "CStart SeedShort"
-			} else {
-				a, err := dkgPolyOfSeed(seed, in.T)
-				if err != nil {
-					return Result{}, err
-				}
-				ct = "CStart (SeedOk " + cqZlist(a) + ")"
-				if in.My == ownIdx {
-					known[ownIdx] = a
-				}
-			}
-		case "timeout":
-			ct = "CNextTimeout"
-		case "end":
-			ct = "CEnd"
-		case "running":
-			ct = "CRunning"
-		case "bcast", "priv":
-			m, err := dkgAbsMsg(unhx(call.Msg), in.T)
+		if call.Op == "start" && len(unhx(call.Seed)) >= crypto.KeyGenSeedMinLen && in.My == ownIdx {
+			a, err := dkgPolyOfSeed(unhx(call.Seed), in.T)
 			if err != nil {
 				return Result{}, err
 			}
-			if call.Op == "bcast" {
-				ct = fmt.Sprintf("CBroadcast %s %s", cqZi(call.Orig), m)
-			} else {
-				ct = fmt.Sprintf("CPrivate %s %s", cqZi(call.Orig), m)
-			}
-		case "force":
-			ct = "CForce " + cqZi(call.Orig)
-		default:
-			return Result{}, fmt.Errorf("unknown op %q", call.Op)
+			known[ownIdx] = a
 		}
-		o := c10Exec(d, p, call)
-		var rt string
-		switch o.Class {
-		case "ok":
-			rt = "ROk"
-		case "invalid-input":
-			rt = "RInvalidInput"
-		case "state":
-			rt = "RStateErr"
-		case "failure":
-			rt = "RFailure"
-		case "panic":
-			rt = "RPanic"
-		case "true", "false":
-			rt = "(RBool " + o.Class + ")"
-		case "keys":
-			t, ko, err := dkgKeysTerm(o.keys[0].(crypto.PrivateKey), o.keys[1].(crypto.PublicKey), o.keys[2].([]crypto.PublicKey), known)
-			if err != nil {
-				return Result{}, err
-			}
-			rt, o.Keys = t, ko
-		default:
-			rt = "RUndef" // an error of no documented class
+		term, o, err := dkgStep(d, p, call, in.T, known)
+		if err != nil {
+			return Result{}, err
 		}
-		if c10Refused(o) {
+		if dkgRefused(o) {
 			refused++
 		} else {
 			accepted++
 		}
-		evt, err := dkgAbsEvents(o.Events, in.T)
-		if err != nil {
-			return Result{}, err
-		}
-		terms = append(terms, fmt.Sprintf("(%s, mkObs %s %s %s)", ct, rt, cqbool(o.Running), evt))
+		terms = append(terms, term)
 		obs = append(obs, o)
 		if o.Class == "panic" {
 			break
@@ -261,11 +124,11 @@ func c10Run(c Case) (Result, error) {
 			return Result{}, err
 		}
 		for i, o := range obs {
-			if c10Refused(o) {
+			if dkgRefused(o) {
 				continue
 			}
-			o2 := c10Exec(d2, p2, in.Calls[i])
-			if !c10SameObs(o, o2) {
+			o2 := dkgExec(d2, p2, in.Calls[i])
+			if !dkgSameObs(o, o2) {
 				noop = false
 				break
 			}
@@ -423,7 +286,7 @@ func (cx *c10Ctx) outOfRange(r *rand.Rand) int {
 // symbols of the enumeration alphabet
 var c10Alphabet = []string{"start", "start-short", "timeout", "end", "running", "bcast-in", "bcast-out", "priv-in", "priv-out", "force-in", "force-out"}
 
-func (cx *c10Ctx) symbol(r *rand.Rand, sym string, random bool) c10Call {
+func (cx *c10Ctx) symbol(r *rand.Rand, sym string, random bool) dkgCall {
 	in := cx.in
 	src := in.Dealer
 	if in.Proto == "joint" || src == in.My {
@@ -431,38 +294,38 @@ func (cx *c10Ctx) symbol(r *rand.Rand, sym string, random bool) c10Call {
 	}
 	switch sym {
 	case "start":
-		return c10Call{Op: "start", Seed: hx(cx.seed)}
+		return dkgCall{Op: "start", Seed: hx(cx.seed)}
 	case "start-short":
-		return c10Call{Op: "start", Seed: hx(cx.seed[:3+r.IntN(20)])}
+		return dkgCall{Op: "start", Seed: hx(cx.seed[:3+r.IntN(20)])}
 	case "timeout":
-		return c10Call{Op: "timeout"}
+		return dkgCall{Op: "timeout"}
 	case "end":
-		return c10Call{Op: "end"}
+		return dkgCall{Op: "end"}
 	case "running":
-		return c10Call{Op: "running"}
+		return dkgCall{Op: "running"}
 	case "bcast-in":
 		if random {
 			o := cx.inRange(r)
-			return c10Call{Op: "bcast", Orig: o, Msg: hx(cx.msg(r, c10BcastKinds[r.IntN(len(c10BcastKinds))], o))}
+			return dkgCall{Op: "bcast", Orig: o, Msg: hx(cx.msg(r, c10BcastKinds[r.IntN(len(c10BcastKinds))], o))}
 		}
-		return c10Call{Op: "bcast", Orig: src, Msg: hx(cx.msg(r, "vec", src))}
+		return dkgCall{Op: "bcast", Orig: src, Msg: hx(cx.msg(r, "vec", src))}
 	case "bcast-out":
-		return c10Call{Op: "bcast", Orig: cx.outOfRange(r), Msg: hx(cx.msg(r, "vec", -1))}
+		return dkgCall{Op: "bcast", Orig: cx.outOfRange(r), Msg: hx(cx.msg(r, "vec", -1))}
 	case "priv-in":
 		if random {
 			o := cx.inRange(r)
-			return c10Call{Op: "priv", Orig: o, Msg: hx(cx.msg(r, c10PrivKinds[r.IntN(len(c10PrivKinds))], o))}
+			return dkgCall{Op: "priv", Orig: o, Msg: hx(cx.msg(r, c10PrivKinds[r.IntN(len(c10PrivKinds))], o))}
 		}
-		return c10Call{Op: "priv", Orig: src, Msg: hx(cx.msg(r, "share", src))}
+		return dkgCall{Op: "priv", Orig: src, Msg: hx(cx.msg(r, "share", src))}
 	case "priv-out":
-		return c10Call{Op: "priv", Orig: cx.outOfRange(r), Msg: hx(cx.msg(r, "share", -1))}
+		return dkgCall{Op: "priv", Orig: cx.outOfRange(r), Msg: hx(cx.msg(r, "share", -1))}
 	case "force-in":
 		if random {
-			return c10Call{Op: "force", Orig: cx.inRange(r)}
+			return dkgCall{Op: "force", Orig: cx.inRange(r)}
 		}
-		return c10Call{Op: "force", Orig: src}
+		return dkgCall{Op: "force", Orig: src}
 	case "force-out":
-		return c10Call{Op: "force", Orig: cx.outOfRange(r)}
+		return dkgCall{Op: "force", Orig: cx.outOfRange(r)}
 	}
 	panic(sym)
 }
@@ -527,15 +390,15 @@ func c10Gen(tier string, r *rand.Rand) []Case {
 		in.Calls = append(in.Calls, cx.symbol(r, "start", true))
 		for ph := 0; ph < 3; ph++ {
 			// phase 0 starts with the honest-looking vector and share of every other origin, shuffled in
-			var items []c10Call
+			var items []dkgCall
 			if ph == 0 {
 				for o := 0; o < n; o++ {
 					if o == my || (proto != "joint" && o != dealer) || r.IntN(6) == 0 {
 						continue
 					}
-					items = append(items, c10Call{Op: "bcast", Orig: o, Msg: hx(cx.msg(r, "vec", o))})
+					items = append(items, dkgCall{Op: "bcast", Orig: o, Msg: hx(cx.msg(r, "vec", o))})
 					if r.IntN(5) > 0 {
-						items = append(items, c10Call{Op: "priv", Orig: o, Msg: hx(cx.msg(r, "share", o))})
+						items = append(items, dkgCall{Op: "priv", Orig: o, Msg: hx(cx.msg(r, "share", o))})
 					}
 				}
 			}
